@@ -18,7 +18,10 @@ DRIVER_DEPS = ["ScoresVerif.Driver.C09"]
 LEVEL = "proof"
 TRUSTED = ["numpy log (libm) for SEDI: log is an uninterpreted function in the theorems"]
 ASSUMPTIONS = ["counts are exactly representable (integers / dyadic) so float + and * are exact; quotients compared to 1e-9",
-               "float rounding, overflow and signed zero are not modelled"]
+               "float rounding, overflow and signed zero are not modelled",
+               "storage dtypes (int64/int32/int16/int8/uint8/uint16/float32/bool) are an oracle-only input class: expected values "
+               "come from Lean Spec on the exact values; float32 storage compared at 1e-5 on tables with total <= 64; integer "
+               "overflow of the formula's own sub-expressions in the counts' dtype is the written-up defect F-C09a/b (notes/C09.md)"]
 MANIFEST = dict(
     level="proof",
     text="Kernel-checked Lean theorems about definitions regenerated from contingency_impl.py on every run: each of the 19 "
@@ -32,7 +35,9 @@ MANIFEST = dict(
     technique="Lean 4 theorems over translator-regenerated definitions + exhaustive differential correspondence",
     design="6/C09")
 RULE = ("tables (tp,fp,fn,tn) enumerated exhaustively up to a total, then random larger / multi-dimensional; "
-        "distinct = distinct table; non-trivial = total > 0")
+        "the same tables stored as int64/int32/int16/int8/float32/float64 (uint8/uint16 in separate batches) counts in 1-d, "
+        "0-d and Python-number DataArrays, and 0/1 event arrays of every such dtype and bool through transform() and the "
+        "standalone POD/POFD; distinct = distinct table (x dtype x container); non-trivial = total > 0")
 
 ALIASES = {
     "fraction_correct": "accuracy", "bias_score": "frequency_bias", "hit_rate": "probability_of_detection",
@@ -133,35 +138,44 @@ def rounding_sensitive(t, n):
     return False
 
 
-def compare(ctx, batch, kind, tabs, names, impl, model_rows, theorem_of=None):
+def compare(ctx, batch, kind, tabs, names, impl, model_rows, theorem_of=None, extra=None, tol=None, defect=None):
+    """extra: dict merged into every case description and (its scalar entries) into the tags (storage-dtype batches);
+    tol: rtol = atol for quotients (float32 storage: the library legitimately computes in float32);
+    defect(t, n): id of a written-up defect class of the unchanged code this (table, metric) falls in, or None"""
+    extra = extra or {}
+    xtags = {k: v for k, v in extra.items() if isinstance(v, (str, int, bool)) or v is None}
+    kw = {} if tol is None else {"rtol": tol, "atol": tol}
     for i, t in enumerate(tabs):
         row = model_rows[i]
-        ctx.case(batch, {"tp": t[0], "fp": t[1], "fn": t[2], "tn": t[3]}, nontrivial=sum(t) > 0)
+        ctx.case(batch, dict({"tp": t[0], "fp": t[1], "fn": t[2], "tn": t[3]}, **extra), nontrivial=sum(t) > 0)
         zero = "zero-total" if sum(t) == 0 else ("zero-cell" if 0 in t else "no-zero")
         ctx.tag(zero)
         for n in names:
             v = impl[n]
             if isinstance(v, Exception):
-                ctx.fail(batch, "property", n, "exception", {"table": t}, observed=core.exc_class(v), expected="a value",
-                         tags={"method": n})
+                ctx.fail(batch, "property", n, "exception", dict({"tp": t[0], "fp": t[1], "fn": t[2], "tn": t[3]}, **extra),
+                         observed=core.exc_class(v), expected="a value", tags=dict(xtags, method=n))
                 continue
             if n == "symmetric_extremal_dependence_index":
                 exp = sedi_from(core.to_float(core.parse_fl(row["probability_of_detection"])),
                                 core.to_float(core.parse_fl(row["false_alarm_rate"])))
-                ok = core.close_ff(v[i], exp)
+                ok = core.close_ff(v[i], exp, **kw)
             else:
                 if n not in row:
                     continue
                 exp = row[n]
-                ok = core.close(v[i], exp)
+                ok = core.close(v[i], exp, **kw)
             if not ok and rounding_sensitive(t, n) and not (math.isfinite(float(v[i])) and
                                                             isinstance(core.parse_fl(exp) if isinstance(exp, str) else exp, core.Fraction)):
                 ctx.tag("rounding-sensitive-skipped")
                 continue
             if not ok:
-                ctx.fail(batch, kind, n, "value", {"tp": t[0], "fp": t[1], "fn": t[2], "tn": t[3]},
-                         observed=float(v[i]), expected=exp, tags={"method": n, "zero": zero},
-                         theorem=(theorem_of or {}).get(n))
+                tags = dict(xtags, method=n, zero=zero)
+                d = defect(t, n) if defect else None
+                if d:
+                    tags["defect"] = d
+                ctx.fail(batch, kind, n, "value", dict({"tp": t[0], "fp": t[1], "fn": t[2], "tn": t[3]}, **extra),
+                         observed=float(v[i]), expected=exp, tags=tags, theorem=(theorem_of or {}).get(n))
 
 
 def correspondence(ctx):
@@ -189,6 +203,314 @@ def correspondence(ctx):
             if not core.close(got, mrows[i][cell]):
                 ctx.fail("binary-maps", "correspondence", "BinaryContingencyManager." + cell, "value",
                          {"fcst": p[0], "obs": p[1]}, observed=got, expected=mrows[i][cell], tags={"cell": cell})
+
+
+# ----------------------------------------------------------------------------- storage-dtype class (oracle only)
+# The SAME count / event VALUES are stored as int64 / int32 / int16 / int8 / float32 / float64 (and, in separately
+# tagged batches, uint8 / uint16), as 1-d DataArrays, 0-d DataArrays and 0-d DataArrays built from Python numbers.
+# Expected value: Lean Spec on the exact values (the model has no notion of a storage dtype: the model value of an
+# int16 7 is 7) + the relation "same values stored as float64 => same result".  float32 storage: the library
+# legitimately computes in float32, so quotients are compared at 1e-5 (tables with total <= 64 only); everything else
+# at the usual 1e-9.  Not in the correspondence (the translated model works on Fl values).
+SIGNED_DT = ["int64", "int32", "int16", "int8"]
+UNSIGNED_DT = ["uint8", "uint16"]
+FLOAT_DT = ["float32", "float64"]
+EVENT_DT = SIGNED_DT + ["bool"] + FLOAT_DT
+F32_TOL = 1e-5
+DEFECT_SIGNED = "F-C09a"       # notes/C09.md: integer sub-expression of the formula overflows the counts' own (signed) dtype
+DEFECT_UNSIGNED = "F-C09b"     # notes/C09.md: unsigned counts: tp*tn - fp*fn wraps around / products overflow
+
+
+def _base(n):
+    return ALIASES.get(n, n)
+
+
+def int_subexpressions(t, n):
+    """the integer-valued sub-expressions of the DOCUMENTED formula of metric n (sums of cells never exceed the total,
+    which is itself stored in the dtype, so only the doubled cell and the products matter)"""
+    tp, fp, fn, tn = t
+    b = _base(n)
+    if b == "f1_score":
+        return [2 * tp, 2 * tp + fp + fn]
+    if b == "equitable_threat_score":
+        return [(tp + fn) * (tp + fp)]
+    if b == "heidke_skill_score":
+        x, y = (tp + fn) * (tp + fp), (tn + fn) * (tn + fp)
+        return [x, y, x + y]
+    if b == "odds_ratio_skill_score":
+        x, y = tp * tn, fn * fp
+        return [x, y, x - y, x + y]
+    return []
+
+
+def dtype_defect(dt):
+    """classifier for compare(): a failure is attributed to the written-up integer-overflow defects only when an
+    integer sub-expression of the documented formula, evaluated exactly, lies outside the range of the storage dtype"""
+    d = np.dtype(dt)
+    if d.kind not in "iu":
+        return None
+    lo, hi = int(np.iinfo(d).min), int(np.iinfo(d).max)
+    ident = DEFECT_UNSIGNED if d.kind == "u" else DEFECT_SIGNED
+
+    def f(t, n):
+        return ident if any(v < lo or v > hi for v in int_subexpressions(t, n)) else None
+    return f
+
+
+def dt_limit(dt):
+    """largest total of a table whose cells AND total are stored exactly in dt (float32: small enough that the
+    float32 computation stays within F32_TOL of the exact value)"""
+    d = np.dtype(dt)
+    if d.kind in "iu":
+        return min(int(np.iinfo(d).max), 10 ** 6)
+    return 64 if d == np.dtype("float32") else 10 ** 6
+
+
+def split_total(rng, total):
+    cuts = sorted(rng.randint(0, total) for _ in range(3))
+    t = [cuts[0], cuts[1] - cuts[0], cuts[2] - cuts[1], total - cuts[2]]
+    if rng.random() < 0.4:          # zero cells: move one cell's content into another
+        i, j = rng.sample(range(4), 2)
+        t[j] += t[i]
+        t[i] = 0
+    rng.shuffle(t)
+    return tuple(t)
+
+
+def gen_dtype_tables(ctx, dt, boost):
+    rng = ctx.rng
+    lim = dt_limit(dt)
+    tabs = tables_upto(5)                                   # every dtype: all tables with total <= 5 (fit int8, no overflow)
+    edge = [lim, lim - 1, lim // 2 + 1, lim // 2]
+    d = np.dtype(dt)
+    if d.kind in "iu":
+        r = math.isqrt(int(np.iinfo(d).max))                # products of marginal sums sit exactly at the dtype's edge
+        edge += [x for x in (r, r + 1, 2 * r) if x <= lim]
+    for m in edge:
+        tabs += [(m, 0, 0, 0), (0, m, 0, 0), (0, 0, m, 0), (0, 0, 0, m), (m // 2, m - m // 2, 0, 0), (m // 2, 0, m - m // 2, 0),
+                 (m // 2, 0, 0, m - m // 2), (0, m // 2, m - m // 2, 0), (m - 3 * (m // 4), m // 4, m // 4, m // 4)]
+        tabs.append(split_total(rng, m))
+    for _ in range(ctx.n(40, 400) * (5 if boost else 1)):
+        scale = rng.choice([12, 64, min(lim, 181), min(lim, 1000), lim])
+        tabs.append(split_total(rng, rng.randint(1, scale)))
+    tabs += [(200, 100, 100, 200), (1, 2, 2, 1)] if lim >= 600 else [(1, 2, 2, 1)]      # the written-up witnesses
+    seen, out = set(), []
+    for t in tabs:
+        if t not in seen and sum(t) <= lim and min(t) >= 0:
+            seen.add(t)
+            out.append(t)
+    return out
+
+
+def manager_dt(tabs, dt, container):
+    """container: 'vector' (1-d DataArrays over all tables) | 'zero-d' (one table, 0-d DataArrays of the dtype) |
+    'python-number' (one table, xr.DataArray(<python int / float>): numpy's default int64 / float64)"""
+    from scores.categorical import BasicContingencyManager
+    dim = "".join(["k", "k"])
+    if container == "vector":
+        a = np.array(tabs, dtype=dt).reshape(-1, 4)
+        da = lambda col: xr.DataArray(a[:, col].copy(), dims=[dim])
+    elif container == "zero-d":
+        da = lambda col: xr.DataArray(np.array(tabs[0][col], dtype=dt))
+    else:
+        conv = float if np.dtype(dt).kind == "f" else int
+        da = lambda col: xr.DataArray(conv(tabs[0][col]))
+    cd = {"tp_count": da(0), "tn_count": da(3), "fp_count": da(1), "fn_count": da(2)}
+    cd["total_count"] = cd["tp_count"] + cd["tn_count"] + cd["fp_count"] + cd["fn_count"]
+    for v in cd.values():
+        assert v.dtype == np.dtype(dt), (v.dtype, dt)
+    return BasicContingencyManager(cd)
+
+
+def impl_all_dt(tabs, names, dt, container):
+    res = {}
+    with np.errstate(all="ignore"):
+        try:
+            m = manager_dt(tabs, dt, container)
+        except AssertionError:
+            raise
+        except Exception as ex:
+            return {n: ex for n in names}
+        for n in names:
+            try:
+                res[n] = np.asarray(getattr(m, n)().values, dtype=float).reshape(-1)
+            except Exception as ex:
+                res[n] = ex
+    return res
+
+
+def compare_dt(ctx, batch, tabs, names, impl, impl64, rows, dt, container):
+    """one storage dtype / container: documented formula on the exact values, float64-storage relation, aliases"""
+    extra = {"dtype": dt, "container": container}
+    tol = F32_TOL if dt == "float32" else None
+    kw = {} if tol is None else {"rtol": tol, "atol": tol}
+    defect = dtype_defect(dt)
+    ctx.tag(f"dtype:{dt}:{container}", len(tabs))
+    compare(ctx, batch, "property", tabs, [n for n in names if n in rows[0] or n == "symmetric_extremal_dependence_index"],
+            impl, rows, extra=extra, tol=tol, defect=defect)
+    for n in names:
+        a, b = impl[n], impl64[n]
+        if isinstance(a, Exception) or isinstance(b, Exception):
+            continue
+        for i, t in enumerate(tabs):
+            if core.close_ff(a[i], b[i], **kw):
+                continue
+            if rounding_sensitive(t, _base(n)) and not (math.isfinite(a[i]) and math.isfinite(b[i])):
+                ctx.tag("rounding-sensitive-skipped")
+                continue
+            tags = {"method": n, "dtype": dt, "container": container}
+            d = defect(t, n) if defect else None
+            if d:
+                tags["defect"] = d
+            ctx.fail(batch, "property", n, "differs-from-float64-storage",
+                     {"tp": t[0], "fp": t[1], "fn": t[2], "tn": t[3], "dtype": dt, "container": container},
+                     observed=float(a[i]), expected=float(b[i]), tags=tags)
+            if not d:
+                break
+    for al, base in ALIASES.items():
+        a, b = impl.get(al), impl.get(base)
+        if a is None or b is None or isinstance(a, Exception) or isinstance(b, Exception):
+            continue
+        for i, t in enumerate(tabs):
+            if not core.close_ff(a[i], b[i], rtol=0, atol=0):
+                ctx.fail(batch, "property", al, "alias-differs",
+                         {"tp": t[0], "fp": t[1], "fn": t[2], "tn": t[3], "dtype": dt, "container": container},
+                         observed=float(a[i]), expected=float(b[i]), tags={"method": al, "dtype": dt}, theorem="alias_" + al)
+                break
+
+
+def event_tables(f, o, per_row):
+    """exact (tp, fp, fn, tn) of 2-d event value lists (None = NaN), one per row or one overall"""
+    def tab(pairs):
+        t = [0, 0, 0, 0]
+        for x, y in pairs:
+            if x is None or y is None:
+                continue
+            t[{(1, 1): 0, (1, 0): 1, (0, 1): 2, (0, 0): 3}[(x, y)]] += 1
+        return tuple(t)
+    if per_row:
+        return [tab(zip(fr, orow)) for fr, orow in zip(f, o)]
+    return [tab([p for fr, orow in zip(f, o) for p in zip(fr, orow)])]
+
+
+def event_array(vals, dt):
+    a = np.array([[float("nan") if v is None else v for v in row] for row in vals], dtype=float)
+    return xr.DataArray(a.astype(dt), dims=["".join(["a"]), "".join(["b"])])
+
+
+EVENT_REQS = [({}, False), ({"reduce_dims": ["b"]}, True), ({"preserve_dims": ["a"]}, True), ({"reduce_dims": "all"}, False),
+              ({"reduce_dims": ["a", "b"]}, False), ({"preserve_dims": []}, False)]
+
+
+def impl_events(f, o, fdt, odt, req, names):
+    """every metric through BinaryContingencyManager(...).transform(**req) plus the standalone POD / POFD"""
+    from scores.categorical import BinaryContingencyManager, probability_of_detection, probability_of_false_detection
+    res = {}
+    with np.errstate(all="ignore"):
+        fx, ox = event_array(f, fdt), event_array(o, odt)
+        try:
+            m = BinaryContingencyManager(fx, ox).transform(**req)
+        except Exception as ex:
+            m = ex
+        for n in names:
+            try:
+                if isinstance(m, Exception):
+                    raise m
+                res[n] = np.asarray(getattr(m, n)().values, dtype=float).reshape(-1)
+            except Exception as ex:
+                res[n] = ex
+        for nm, fn in (("binary.probability_of_detection", probability_of_detection),
+                       ("binary.probability_of_false_detection", probability_of_false_detection)):
+            try:
+                res[nm] = np.asarray(fn(fx, ox, **req).values, dtype=float).reshape(-1)
+            except Exception as ex:
+                res[nm] = ex
+    return res
+
+
+def gen_event_case(ctx, pool):
+    rng = ctx.rng
+    fdt = rng.choice(pool)
+    odt = rng.choice([fdt, fdt, rng.choice(pool)])
+    na = rng.randint(1, 3)
+    nb = rng.randint(130, 300) if rng.random() < 0.15 else rng.randint(1, 7)     # > 127 events: counts exceed int8 / bool
+    val = lambda dt, w: rng.choice(w + ([None] if np.dtype(dt).kind == "f" else []))
+    f = [[val(fdt, [0, 1, 1]) for _ in range(nb)] for _ in range(na)]
+    o = [[val(odt, [0, 1]) for _ in range(nb)] for _ in range(na)]
+    if rng.random() < 0.3:          # boundary: forecast == observation on a row (no fp / fn)
+        r = rng.randrange(na)
+        f[r] = [x if np.dtype(fdt).kind == "f" or x is not None else 0 for x in o[r]]
+    req, per_row = rng.choice(EVENT_REQS)
+    return {"fcst": f, "obs": o, "fcst_dtype": fdt, "obs_dtype": odt, "request": req}, per_row
+
+
+def run_event_case(ctx, batch, case, per_row, names, spec_of):
+    f, o, fdt, odt, req = case["fcst"], case["obs"], case["fcst_dtype"], case["obs_dtype"], case["request"]
+    tabs = event_tables(f, o, per_row)
+    impl = impl_events(f, o, fdt, odt, req, names)
+    rows = []
+    for t in tabs:
+        r = dict(spec_of(t))
+        r["binary.probability_of_detection"] = r["probability_of_detection"]
+        r["binary.probability_of_false_detection"] = r["false_alarm_rate"]
+        rows.append(r)
+    bad = {n: v for n, v in impl.items() if not isinstance(v, Exception) and len(v) != len(tabs)}
+    for n, v in bad.items():
+        ctx.fail(batch, "property", n, "result-shape", dict(case), observed=len(v), expected=len(tabs),
+                 tags={"method": n, "fcst_dtype": fdt, "obs_dtype": odt})
+        impl.pop(n)
+    ctx.tag(f"event-dtype:{fdt}/{odt}")
+    sel = [n for n in impl if n in rows[0] or n == "symmetric_extremal_dependence_index"]
+    # event counts are sums of 0/1 values: the library computes them (and the metrics) in float64 whatever the storage
+    compare(ctx, batch, "property", tabs, sel, impl, rows,
+            extra={"fcst": f, "obs": o, "fcst_dtype": fdt, "obs_dtype": odt, "request": req, "per_row": per_row})
+    for al, base in ALIASES.items():
+        a, b = impl.get(al), impl.get(base)
+        if a is None or b is None or isinstance(a, Exception) or isinstance(b, Exception):
+            continue
+        if not all(core.close_ff(x, y, rtol=0, atol=0) for x, y in zip(a, b)):
+            ctx.fail(batch, "property", al, "alias-differs", dict(case), observed=a.tolist(), expected=b.tolist(),
+                     tags={"method": al, "fcst_dtype": fdt, "obs_dtype": odt}, theorem="alias_" + al)
+
+
+def spec_lookup(tables):
+    uniq = sorted(set(tables))
+    rows = core.run_driver("C09", ops_for(uniq, "c09.spec"))
+    d = dict(zip(uniq, rows))
+    return lambda t: d[tuple(t)]
+
+
+def oracle_dtypes(ctx, names, boost):
+    rng = ctx.rng
+    plan = []                                                      # (batch, dtype, container, tables)
+    for dt in SIGNED_DT + FLOAT_DT + UNSIGNED_DT:
+        batch = "dtype-counts-unsigned" if dt in UNSIGNED_DT else "dtype-counts"
+        tabs = gen_dtype_tables(ctx, dt, boost)
+        plan.append((batch, dt, "vector", tabs))
+        fixed = [(0, 0, 0, 0), (3, 1, 2, 4), (1, 2, 2, 1), (0, 2, 1, 0)] + ([(200, 100, 100, 200)] if dt_limit(dt) >= 600 else [])
+        for t in fixed + rng.sample(tabs, ctx.n(4, 30)):
+            plan.append((batch, dt, "zero-d", [t]))
+        if dt in ("int64", "float64"):
+            for t in fixed + rng.sample(tabs, ctx.n(3, 20)):
+                plan.append((batch, dt, "python-number", [t]))
+    events = []
+    for pool, batch in ((EVENT_DT, "dtype-events"), (EVENT_DT + UNSIGNED_DT + UNSIGNED_DT, "dtype-events-unsigned")):
+        k = 0
+        while k < ctx.n(40, 400) * (5 if boost else 1):
+            case, per_row = gen_event_case(ctx, pool)
+            uns = case["fcst_dtype"] in UNSIGNED_DT or case["obs_dtype"] in UNSIGNED_DT
+            if uns != (batch == "dtype-events-unsigned"):
+                continue
+            k += 1
+            events.append((batch, case, per_row))
+    spec_of = spec_lookup([t for _, _, _, tabs in plan for t in tabs] +
+                          [t for _, c, pr in events for t in event_tables(c["fcst"], c["obs"], pr)])
+    for batch, dt, container, tabs in plan:
+        impl = impl_all_dt(tabs, names, dt, container)
+        impl64 = impl_all_dt(tabs, names, "float64", "vector")
+        compare_dt(ctx, batch, tabs, names, impl, impl64, [spec_of(t) for t in tabs], dt, container)
+    for batch, case, per_row in events:
+        run_event_case(ctx, batch, case, per_row, names, spec_of)
 
 
 def oracle(ctx, boost):
@@ -292,10 +614,29 @@ def oracle(ctx, boost):
                          {"fcst": core.canon(np.asarray(fx.values).tolist()), "fcst_dims": list(fx.dims), "obs": core.canon(np.asarray(ox.values).tolist()),
                           "obs_dims": list(ox.dims), "reduce_dims": red}, observed=sv.tolist(), expected=mv.tolist(),
                          tags={"method": nm})
+    # storage dtypes of the counts / of the event arrays
+    oracle_dtypes(ctx, names, boost)
 
 
 def replay(ctx, payload):
     case = payload["case"]
+    site = payload.get("site")
+    if "fcst_dtype" in case:
+        names = metric_names()
+        ctx2 = core.Ctx("C09", "quick", 0)
+        c = {k: case[k] for k in ("fcst", "obs", "fcst_dtype", "obs_dtype", "request")}
+        per_row = case.get("per_row", dict((repr(r), p) for r, p in EVENT_REQS).get(repr(c["request"]), False))
+        tabs = event_tables(c["fcst"], c["obs"], per_row)
+        run_event_case(ctx2, "replay", c, per_row, names, spec_lookup(tabs))
+        return any(f["site"] == site for f in ctx2.failures) if site else bool(ctx2.failures)
+    if "dtype" in case:
+        t = (int(case["tp"]), int(case["fp"]), int(case["fn"]), int(case["tn"]))
+        names = metric_names()
+        ctx2 = core.Ctx("C09", "quick", 0)
+        impl = impl_all_dt([t], names, case["dtype"], case["container"])
+        impl64 = impl_all_dt([t], names, "float64", "vector")
+        compare_dt(ctx2, "replay", [t], names, impl, impl64, [spec_lookup([t])(t)], case["dtype"], case["container"])
+        return any(f["site"] == site for f in ctx2.failures) if site else bool(ctx2.failures)
     if "tp" in case:
         t = (int(case["tp"]), int(case["fp"]), int(case["fn"]), int(case["tn"]))
         names = metric_names()
